@@ -67,11 +67,33 @@ def check_case(case, seed, n_eager):
                 fails.append(dict(clause="C36.initial_style" if srcs[j] == "call" else "C36.transparent", mode=mode, n=n, out=j,
                                   got=got[j], want=ev[n][j], src=srcs[j]))
 
+    has_call = "call" in jaxir.ops_of(prog)
+    f_inline = jaxir.build(prog, kc, inline_calls=True) if has_call else None
+
+    def ordinary_ok(mode, n, ordn):
+        """Ordinary evaluation must equal TLC's EvalProg.  A program with `call` evaluates genjax's initial-style primitive
+        even when run ordinarily: if the same program with the wrapped function applied directly agrees with TLC, the
+        primitive does not evaluate to its wrapped function (a C36 clause); anything else is a builder/spec bug."""
+        if ordn == ev[n]:
+            return True
+        if has_call and proj(f_inline(*inputs[n])) == ev[n]:
+            fails.append(dict(clause="C36.initial_style", mode="ordinary-" + mode, n=n, got=ordn, want=ev[n], src="call"))
+            return False
+        machinery.append(f"builder/spec disagreement ({mode}): {jaxir.show(prog)} val={vals[n]} jax={ordn} tlc={ev[n]}")
+        return False
+
     for n in rng.sample(range(len(inputs)), min(n_eager, len(inputs))):
-        ordn = proj(f(*inputs[n]))
-        if ordn != ev[n]:
-            machinery.append(f"builder/spec disagreement (eager): {jaxir.show(prog)} val={vals[n]} jax={ordn} tlc={ev[n]}")
-            return dict(fails=[], machinery=machinery, calls=calls)
+        try:
+            ordn = proj(f(*inputs[n]))
+        except Exception as e:  # noqa: BLE001
+            if has_call:
+                fails.append(dict(clause="C36.initial_style", mode="ordinary-eager", n=n, why="raised:" + type(e).__name__, error=repr(e)[:300]))
+                continue
+            raise
+        if not ordinary_ok("eager", n, ordn):
+            if machinery:
+                return dict(fails=[], machinery=machinery, calls=calls)
+            continue
         calls += 1
         try:
             got = proj(stateful(f)(h0, *inputs[n]))
@@ -80,16 +102,17 @@ def check_case(case, seed, n_eager):
             continue
         judge("eager", n, got, ordn)
 
-    jord = jax.jit(f)
     try:
-        jst = jax.jit(lambda *a: stateful(f)(h0, *a))
+        jboth = jax.jit(lambda *a: (f(*a), stateful(f)(h0, *a)))     # one compilation: ordinary and interpreted
         for n, inp in enumerate(inputs):
-            ordn = proj(jax.device_get(jord(*inp)))
-            if ordn != ev[n]:
-                machinery.append(f"builder/spec disagreement (jit): {jaxir.show(prog)} val={vals[n]} jax={ordn} tlc={ev[n]}")
-                return dict(fails=[], machinery=machinery, calls=calls)
+            o1, o2 = jax.device_get(jboth(*inp))
+            ordn = proj(o1)
+            if not ordinary_ok("jit", n, ordn):
+                if machinery:
+                    return dict(fails=[], machinery=machinery, calls=calls)
+                continue
             calls += 1
-            judge("jit", n, proj(jax.device_get(jst(*inp))), ordn)
+            judge("jit", n, proj(o2), ordn)
     except Exception as e:  # noqa: BLE001
         fails.append(dict(clause="C36.transparent", mode="jit", n=-1, why="raised:" + type(e).__name__, error=repr(e)[:300]))
     return dict(fails=fails, machinery=machinery, calls=calls)
@@ -119,13 +142,12 @@ def run(prop_id, tier, seed, replay=None):
         with open(replay) as f:
             cases = [json.load(f)["detail"]["case"]]
     else:
-        rand = dict(nchains=64, nper=1, arith=8) if tier == "quick" else dict(nchains=96, nper=6, arith=16)
+        rand = dict(nchains=48, nper=1, arith=8) if tier == "quick" else dict(nchains=96, nper=6, arith=16)
         cases = generate("Stateful", wd, seed, tier, rep, ["Transparent", "EmitCase36"], rand=rand)
         rep.extra["exhaustive_scope"] = "SpecBfs: every one-equation program of SmallEqs over inputs (s,s,v), all valuations (exhaustive); SpecRand: sampled"
-    n_eager = 3 if tier == "quick" else 27
+    n_eager = 1 if tier == "quick" else 27
     jobs = [(b, seed, n_eager) for b in balance(cases, vlib.NCPU * 3)]
-    ctx = mp.get_context("spawn")
-    with ctx.Pool(vlib.NCPU) as pool:
+    with vlib.pinned_pool() as pool:
         results = pool.map(_work, jobs, chunksize=1)
     by_id = {c["id"]: c for c in cases}
     machinery, calls, opsseen, per_sig = [], 0, {}, {}
